@@ -12,9 +12,9 @@ import (
 func sp(s string) *string { return &s }
 
 // The state every C27/C32 program starts from, and the dump that observes it.
-const parentSetup = `x=1; e=5; export e; a=(p q r); s=([2]=u [5]=w); declare -A m=([k]=v [j]=w); f() { echo orig; }; alias al=orig; set -- P Q; g() { local loc=1; "$@"; }`
+const parentSetup = `x=1; e=5; export e; a=(p q r); s=([2]=u [5]=w); t=([1]=a [4]=b [8]=c); unset 't[8]'; declare -A m=([k]=v [j]=w); f() { echo orig; }; alias al=orig; set -- P Q; g() { local loc=1; "$@"; }`
 
-const parentDump = `declare -p x e a s n u 2>&1; declare -f f h 2>&1; alias; set -o; shopt nullglob; shopt dotglob; pwd; echo "$#:$*"; echo "a0=${a[0]} a1=${a[1]} #a=${#a[@]} ia=${!a[*]} is=${!s[*]} mk=${m[k]-unset} mj=${m[j]-unset} mn=${m[new]-unset} #m=${#m[@]}"; f`
+const parentDump = `declare -p x e a s t n u 2>&1; declare -f f h 2>&1; alias; set -o; shopt nullglob; shopt dotglob; pwd; echo "$#:$*"; echo "a0=${a[0]} a1=${a[1]} #a=${#a[@]} ia=${!a[*]} is=${!s[*]} mk=${m[k]-unset} mj=${m[j]-unset} mn=${m[new]-unset} #m=${#m[@]}"; f`
 
 // mutations is the alphabet of command lists S (each changes some part of the
 // shell state; none writes to stdout).
@@ -38,6 +38,11 @@ var mutations = []struct{ name, s string }{
 	{"sparse-new", "s[3]=Z"},
 	{"sparse-append0", "s+=Z"},
 	{"sparse-unset-elem", "unset 's[5]'"},
+	// t was shrunk by an unset, so its index slice has spare capacity
+	{"sparse-spare-insert-middle", "t[2]=Z"},
+	{"sparse-spare-insert-front", "t[0]=Z"},
+	{"sparse-spare-append", "t[9]=Z"},
+	{"sparse-spare-append0", "t+=Z"},
 	{"assoc-elem", "m[k]=Z"},
 	{"assoc-elem-append", "m[k]+=Z"},
 	{"assoc-new", "m[new]=Z"},
@@ -96,9 +101,9 @@ var mutations = []struct{ name, s string }{
 
 // The same for state that is local to a function (the property quantifies
 // over "locals inside functions"): the whole scenario runs inside main.
-const localSetup = `main() { local lx=1; local -a la=(p q r); local -a ls=([2]=u [5]=w); local -A lm=([k]=v [j]=w)`
+const localSetup = `main() { local lx=1; local -a la=(p q r); local -a ls=([2]=u [5]=w); local -A lm=([k]=v [j]=w); local -a lt=([1]=a [4]=b [8]=c); unset 'lt[8]'`
 
-const localDump = `echo "lx=${lx-unset} la=${la[*]-unset} ila=${!la[*]} #la=${#la[@]} ls=${ls[*]-unset} ils=${!ls[*]} lmk=${lm[k]-unset} lmj=${lm[j]-unset} lmn=${lm[new]-unset} #lm=${#lm[@]}"; declare -p lx la ls 2>&1; }; main`
+const localDump = `echo "lx=${lx-unset} la=${la[*]-unset} ila=${!la[*]} #la=${#la[@]} ls=${ls[*]-unset} ils=${!ls[*]} lmk=${lm[k]-unset} lmj=${lm[j]-unset} lmn=${lm[new]-unset} #lm=${#lm[@]} lt=${lt[*]-unset} ilt=${!lt[*]}"; declare -p lx la ls 2>&1; }; main`
 
 var localMutations = []struct{ name, s string }{
 	{"l-scalar-assign", "lx=2"},
@@ -121,6 +126,8 @@ var localMutations = []struct{ name, s string }{
 	{"l-sparse-append0", "ls+=Z"},
 	{"l-sparse-append-subscript", "ls+=([5]=Z)"},
 	{"l-sparse-unset-elem", "unset 'ls[5]'"},
+	{"l-sparse-spare-insert-middle", "lt[2]=Z"},
+	{"l-sparse-spare-insert-front", "lt[0]=Z"},
 	{"l-assoc-elem", "lm[k]=Z"},
 	{"l-assoc-elem-append", "lm[k]+=Z"},
 	{"l-assoc-new", "lm[new]=Z"},
@@ -252,7 +259,7 @@ func genSubshellCases(prop string, c *vc.Ctx, emit func(Case)) {
 }
 
 func casesC27(c *vc.Ctx) []Case {
-	c.Rule = "programs = parent state (scalar, exported, indexed dense/sparse, associative, function, alias, options, cwd, positional params, function-local) x every mutation S of a 73-entry alphabet (plus 32 mutations of function-local scalars/arrays with the whole scenario inside a function) x 14 subshell contexts (( ), $( ), backquotes, function with ( ) body, S &, pipeline first/middle/last stage, <( ), >( ), $( ) in a background job) x parent actions {none, read, write}; for the concurrent contexts every goroutine interleaving of the real interpreter up to the preemption bound is executed; oracle: the parent's state dump (declare -p, declare -f, alias, set -o, shopt, pwd, $@, array views) equals the dump of the same program without S, on every schedule; distinct = (program, outcome) pairs"
+	c.Rule = "programs = parent state (scalar, exported, indexed dense/sparse, associative, function, alias, options, cwd, positional params, function-local) x every mutation S of a 77-entry alphabet (plus 32 mutations of function-local scalars/arrays with the whole scenario inside a function) x 14 subshell contexts (( ), $( ), backquotes, function with ( ) body, S &, pipeline first/middle/last stage, <( ), >( ), $( ) in a background job) x parent actions {none, read, write}; for the concurrent contexts every goroutine interleaving of the real interpreter up to the preemption bound is executed; oracle: the parent's state dump (declare -p, declare -f, alias, set -o, shopt, pwd, $@, array views) equals the dump of the same program without S, on every schedule; distinct = (program, outcome) pairs"
 	c.Assumptions = []string{
 		"interp is instrumented at build time from /repo's working tree (mc/instr): goroutine starts, channel close/receive, WaitGroup, pipes, FIFOs and context.AfterFunc go through the controlled scheduler mc/shim/vsched; stdin_os.go is replaced by an interface-based variant",
 		"external commands are replaced by in-process cat/true/false/sleep",
@@ -264,7 +271,7 @@ func casesC27(c *vc.Ctx) []Case {
 }
 
 func casesC32(c *vc.Ctx) []Case {
-	c.Rule = "programs = the C27 family (parent state x 73 (+32 function-local) mutations x 10 concurrent contexts x parent actions none/read/write) + wait-status programs + Runner.Subshell() copies run concurrently with their parent through the exported API; every goroutine interleaving of the real interpreter up to the preemption bound is executed under the Go race detector (the scheduler's hand-off is invisible to it, so only the program's own happens-before edges count); oracles: no race report on any schedule, Run returns on every schedule, `wait gN` yields job N's status on every schedule, programs whose jobs touch only private state have one outcome; distinct = (program, outcome) pairs"
+	c.Rule = "programs = the C27 family (parent state x 77 (+32 function-local) mutations x 10 concurrent contexts x parent actions none/read/write) + wait-status programs + Runner.Subshell() copies run concurrently with their parent through the exported API; every goroutine interleaving of the real interpreter up to the preemption bound is executed under the Go race detector (the scheduler's hand-off is invisible to it, so only the program's own happens-before edges count); oracles: no race report on any schedule, Run returns on every schedule, `wait gN` yields job N's status on every schedule, programs whose jobs touch only private state have one outcome; distinct = (program, outcome) pairs"
 	c.Assumptions = []string{
 		"interp is instrumented at build time from /repo's working tree (mc/instr); the race detector sees goroutine start, close->receive, WaitGroup and pipe write->read edges exactly as in an uninstrumented run",
 		"x86-64 TSO makes the scheduler's plain-word token hand-off sound",
